@@ -12,32 +12,48 @@ is a broken obligation of the check (tools/extract.py exits non-zero).
 
 Subset
 ------
-statements   assignment to local names (also `a, b = <pair>`), augmented assignment on ints,
-             `xs.append(e)` on a local list, if / elif / else, return, raise <ExceptionClass>,
+statements   assignment to local names (also `a, b = <pair>` and `a, b = X.split(sep, 1)`), augmented
+             assignment on ints, `xs.append(e)` on a local list, `self.attr = e` in a constructor
+             whose spec lists the attribute in `fields`, if / elif / else, return, raise <ExceptionClass>
+             (constructor arguments of the exception are ignored), `pass`, docstrings,
              `for x in <list expr>:` with early return / continue / break (translated to a
              structurally recursive auxiliary definition; variables assigned in the body that were
-             defined before the loop are threaded through as loop state),
-             `try: <one assignment or return containing exactly one raising call> except <classes>: ...`,
-             docstrings, `pass`.
-expressions  names, int / str / bytes / bool / None literals, f-strings of simple names, tuples,
-             list literals, `and` / `or` / `not`, comparisons incl. chained ones, `is None`,
-             `is not None`, `in` / `not in` on tuple / set / list literals and substring tests,
-             int arithmetic (+ - * // % unary -), `min` / `max` / `len` / `any(<genexp>)`,
-             `isinstance(x, str)` decided by the declared type, constant subscripts of tuples,
-             slices `s[a:b]`, conditional expressions, and calls that appear in the PRIMITIVES
-             table, in the spec's `calls` (other translated functions) or `patterns`.
-types        Int, Bool, Str (= List Char), Bytes (= List UInt8), Option T, List T, tuples.
-             `None`-able values are `Option`; Python's flow typing is reproduced by *case
-             splitting*: when an `Option`-typed name occurs in a `is None` / `is not None` /
-             truthiness test, the translator emits `match x with | none => … | some x => …`
-             around the statement and its continuation and folds the tests that became constant
-             in each arm, so that every use of `x` as a plain value is type-checked by Lean.
+             defined before the loop are threaded through as loop state), `for x in (a, b):` over a
+             tuple / list literal (unrolled),
+             `try: <one assignment or return> except <classes>: ...` where the statement contains
+             calls that can raise (each is bound by a `match` on its `Except` result).
+expressions  names, int / str / bytes / bool / None literals, f-strings whose fields are str or int
+             expressions without conversion / format spec, tuples,
+             list literals, `and` / `or` / `not` in boolean meaning, comparisons incl. chained ones,
+             `is None`, `is not None`, `in` / `not in` on tuple / set / list literals, substring and
+             list membership, int arithmetic (+ - * and // % by a non-zero literal, unary -),
+             `min` / `max` / `len` / `bool` / `str` (of str / int) / `any(<genexp>)` / `all(<genexp>)`,
+             `isinstance(x, cls)` decided by the declared type, constant subscripts of tuples, slices
+             `s[a:b]`, indexing `xs[i]` (raises IndexError: bound like a raising call), conditional
+             expressions, `s.startswith((a, b))`, and calls that appear in the METHODS / FUNCS
+             tables, in the spec's `calls` (other translated functions / opaque parameters) or
+             `patterns` (e.g. `X.encode("idna").decode("ascii")`), `f(*xs)` for table entries "f(*)".
+types        Int, Bool, Str (= List Char), Bytes (= List UInt8), CharSet (= Char → Bool), Option T,
+             List T, tuples. `None`-able values are `Option`; Python's flow typing is reproduced by
+             *case splitting*: when an `Option`-typed name occurs in a `is None` / `is not None` /
+             truthiness test, the translator emits `match x with | none => … | some x => …` around
+             the statement and its continuation and folds the tests that became constant in each
+             arm, so that every use of `x` as a plain value is type-checked by Lean. Branch
+             conditions are remembered as facts (until a variable they read is re-assigned), so a
+             later syntactically equal test - `elif "-" in item` after `if "-" not in item: return` -
+             is decided the way Python's control flow guarantees.
              An `Option`-typed name used as a plain value without such a test is a possible
              `TypeError`: in a `raises=True` function it becomes `.error "TypeError"` for the
              whole statement (a conservative over-approximation: proving `f x = .ok v` shows the
              absence of that error), in a pure function it is `Untranslatable`.
-errors       functions that can raise have result type `Except String T`, the error string is
-             the Python exception class name.
+errors       functions that can raise have result type `Except String T`, the error string is the
+             Python exception class name. A raising call that Python evaluates only conditionally
+             (right operand of `and` / `or`, later part of a chained comparison) is supported in
+             the test of an `if`, which is first rewritten to nested ifs (evaluation order made
+             explicit). Primitives whose Lean model covers only part of the Python domain
+             (`int(str)`) answer with a marker error outside it and may not be called inside `try`.
+output       one `def` per function (plus one auxiliary `def` per loop), the Python source of every
+             statement as a `--` comment above its translation.
 """
 from __future__ import annotations
 
@@ -650,13 +666,17 @@ class Translator:
                 if isinstance(v, ast.Constant) and isinstance(v.value, str):
                     if v.value:
                         parts.append(lean_str_lit(v.value))
-                elif isinstance(v, ast.FormattedValue) and v.conversion == -1 and v.format_spec is None and isinstance(v.value, ast.Name):
+                elif isinstance(v, ast.FormattedValue) and v.conversion == -1 and v.format_spec is None:
+                    # {expr} without conversion / format spec: str(expr); only str and int values
                     x = self.plain(self.expr(v.value, env), v.value)
-                    if x.ty != STR:
-                        self.bad(n, "f-string of a non-str name")
-                    parts.append(x.lean)
+                    if x.ty == STR:
+                        parts.append(P(x) if len(n.values) > 1 else x.lean)
+                    elif x.ty == INT:
+                        parts.append(f"Pre.strOfInt {P(x)}")
+                    else:
+                        self.bad(n, f"f-string field of type {x.ty} (only str and int)")
                 else:
-                    self.bad(n, "f-string with anything but literal text and plain names")
+                    self.bad(n, "f-string field with a conversion or a format spec")
             if not parts:
                 return E("[]", STR, None, True)
             return E(" ++ ".join(parts), STR, None, len(parts) == 1)
@@ -967,7 +987,7 @@ class Translator:
             self.bad(n, f"method {f.attr!r} of a {recv.ty} is not in py2lean's METHODS table")
         self.bad(n, "unsupported call")
 
-    def call(self, n, env, bound=None) -> E:
+    def call(self, n, env) -> E:
         f = n.func
         if isinstance(f, ast.Attribute) and f.attr in ("startswith", "endswith") and len(n.args) == 1 and not n.keywords and isinstance(n.args[0], ast.Tuple) and n.args[0].elts:
             # s.startswith((a, b)) = s.startswith(a) or s.startswith(b)   (the receiver is pure)
@@ -980,8 +1000,10 @@ class Translator:
         if res is None:
             return self.builtin(n, env)
         fn, args = res
-        if fn.raises and bound is None:
-            self.bad(n, "a call that can raise is only supported as the single raising call of an assignment / return statement")
+        if fn.raises:
+            # raising calls are bound to temporaries by `bind_raising` before the expression is
+            # translated; reaching one here means it sits where that is not supported
+            self.bad(n, "a call that can raise is only supported inside an assignment, a return or the test of an if")
         return self.apply(fn, args, n, env)
 
     def apply(self, fn: Fn, args, n, env) -> E:
@@ -1149,12 +1171,12 @@ class Translator:
 
         return self.stmt(s, env, loop, k2)
 
-    def with_splits(self, node, test_nodes, env, loop, body_fn, comment=True):
+    def with_splits(self, node, test_nodes, env, loop, body_fn, bool_ctx=True):
         """case-split on the Option-typed names that occur in None-test / truthiness position in
         `test_nodes`, then call body_fn(env)"""
         names = []
         for t in test_nodes:
-            for nm in none_tested_names(t):
+            for nm in none_tested_names(t, bool_ctx):
                 if nm in env and env[nm].ty.kind == "Opt" and nm not in names:
                     names.append(nm)
         if not names:
@@ -1165,8 +1187,8 @@ class Translator:
         env_none[nm] = Var(v.lean, NONE)
         env_some = dict(env)
         env_some[nm] = Var(v.lean, v.ty.args[0])
-        a = self.with_splits(node, test_nodes, env_none, loop, body_fn)
-        b = self.with_splits(node, test_nodes, env_some, loop, body_fn)
+        a = self.with_splits(node, test_nodes, env_none, loop, body_fn, bool_ctx)
+        b = self.with_splits(node, test_nodes, env_some, loop, body_fn, bool_ctx)
         return [f"match {v.lean} with", "| none =>"] + ind(a) + [f"| some {v.lean} =>"] + ind(b)
 
     def guarded(self, node, env, loop, fn):
@@ -1199,7 +1221,8 @@ class Translator:
                 self.bad(s, "store to an attribute of self that the spec does not list in `fields`")
 
             def use_field(e, env2):
-                e = self.plain(e, s) if e.ty.kind != "Opt" else e
+                if e.ty == NONE:
+                    self.bad(s, "attribute stored as a bare None (declare the parameter Optional)")
                 env3 = dict(env2)
                 ln = lean_name("self_" + d[5:])
                 env3[d] = Var(ln, e.ty)
@@ -1329,7 +1352,7 @@ class Translator:
 
             return self.guarded(s, env1, loop, inner)
 
-        return self.with_splits(s, [value], env, loop, body)
+        return self.with_splits(s, [value], env, loop, body, bool_ctx=False)
 
     def expr_top(self, value, env):
         return self.expr(value, env)
@@ -1663,6 +1686,13 @@ class Translator:
             init = "".join(" " + P(E(env1[nm].lean, env1[nm].ty, None, True)) for nm in state)
             call = f"{fname}{head} {P(it)}{init}"
             env_after = dict(env1)
+            # the loop changed its state variables: facts about them no longer hold; the loop
+            # target(s) keep the last item in Python - reading them after the loop is refused
+            for nm in state:
+                drop_facts(env_after, nm)
+            for nm in targets:
+                env_after.pop(nm, None)
+                drop_facts(env_after, nm)
             if not state:
                 fall_pat = "()"
             elif len(state) == 1:
@@ -1718,7 +1748,7 @@ def dotted(n):
     return None
 
 
-def none_tested_names(test):
+def none_tested_names(test, bool_ctx=True):
     """names (incl. dotted self.attr) that occur in `is None` / `is not None` / truthiness position"""
     out = []
 
@@ -1772,12 +1802,11 @@ def none_tested_names(test):
                 if isinstance(c, ast.expr):
                     anypos(c)
 
-    boolpos(test) if _is_bool_context(test) else anypos(test)
+    if bool_ctx:
+        boolpos(test)  # the test of an if: the whole expression is in boolean position
+    else:
+        anypos(test)  # a value: only the boolean contexts inside it
     return out
-
-
-def _is_bool_context(x):
-    return True
 
 
 FACTS = "<facts>"
@@ -1803,6 +1832,7 @@ def _norm_test(n):
 def add_fact(env, test, value: bool):
     key, pol, n = _norm_test(test)
     names = {x.id for x in ast.walk(n) if isinstance(x, ast.Name)}
+    names |= {d for d in (dotted(x) for x in ast.walk(n) if isinstance(x, ast.Attribute)) if d}
     env2 = dict(env)
     facts = dict(env.get(FACTS, {}))
     facts[key] = (value == pol, names)
